@@ -119,7 +119,9 @@ class Ctx:
         pr = dict(prims.field_prims()) if field_prims else {}
         if extra_prims:
             pr.update(extra_prims)
-        return Evaluator(self.prog, Policy(opaque=opaque, prims=pr, max_depth=max_depth, opaque_pred=opaque_pred))
+        pol = Policy(opaque=opaque, prims=pr, max_depth=max_depth, opaque_pred=opaque_pred)
+        pol.resolve_aliases(self.prog)
+        return Evaluator(self.prog, pol)
 
     def fn(self, qualname):
         return self.prog.function(qualname)
